@@ -149,7 +149,7 @@ func execDeleg(c *simkit.Ctx) bool {
 		}
 	}
 	if r.prop == "C40" {
-		return e.spy.failedNested > 0
+		return e.spy.okTxAfterFailedWrites > 0
 	}
 	return r.nonOwnerDelegated && r.someUndelegated && r.rewardsIn.Sign() > 0 && r.paidOut
 }
